@@ -97,6 +97,9 @@ x_08_2e == <<48, 56, 46>>   \* "08."
 x_08_2ebai_2e7_2ecsv == <<48, 56, 46, 98, 97, 105, 46, 55, 46, 99, 115, 118>>   \* "08.bai.7.csv"
 x_08_2ebai_2ec_2ecsv == <<48, 56, 46, 98, 97, 105, 46, 99, 46, 99, 115, 118>>   \* "08.bai.c.csv"
 x_08_2ebai_2e33_2ecsv == <<48, 56, 46, 98, 97, 105, 46, 51, 51, 46, 99, 115, 118>>   \* "08.bai.33.csv"
+x_08_2ebai_2ehc_2e33_2ecsv == <<48, 56, 46, 98, 97, 105, 46, 104, 99, 46, 51, 51, 46, 99, 115, 118>>   \* "08.bai.hc.33.csv"
+x_08_2ebai_2e33_2ex_2ecsv == <<48, 56, 46, 98, 97, 105, 46, 51, 51, 46, 120, 46, 99, 115, 118>>   \* "08.bai.33.x.csv"
+x_08_2ebai_2e3_2ex_2ecsv == <<48, 56, 46, 98, 97, 105, 46, 51, 46, 120, 46, 99, 115, 118>>   \* "08.bai.3.x.csv"
 x_08_2ebai_2ehc_2eHW0304_2ex_2eSW0102_2ecsv == <<48, 56, 46, 98, 97, 105, 46, 104, 99, 46, 72, 87, 48, 51, 48, 52, 46, 120, 46, 83, 87, 48, 49, 48, 50, 46, 99, 115, 118>>   \* "08.bai.hc.HW0304.x.SW0102.csv"
 x_ff == <<102, 102>>   \* "ff"
 x_aa == <<97, 97>>   \* "aa"
@@ -164,15 +167,13 @@ NamesA1 == Names({x_08, x_15}, IdAll, CircAll, SufAll, VerAll)
 FamA1(th) == {World("A1", 8, 1, BaseSl, Ents(Files(x_vaillant, {n}, 0))) : n \in NamesA1}
 
 (* A2: precedence between two candidates *)
-NamesA2(th) == IF th THEN Names({x_08}, {NoSeg, Seg1(<<>>), Seg1(x_bai00), Seg1(x_bai0), Seg1(x_bai), Seg1(x_bax)}, {NoSeg, Seg1(x_longcirc)}, {NoSeg},
-                                {NoSeg, <<SWm>>, <<SWx>>, <<HWm>>, <<HWx>>, <<SWm, HWm>>, <<SWx, HWm>>, <<SWm, HWx>>, <<HWm, SWm>>})
+NamesA2(th) == IF th THEN Names({x_08}, {NoSeg, Seg1(<<>>), Seg1(x_bai00), Seg1(x_bai0), Seg1(x_bai), Seg1(x_bax)}, CircAll, {NoSeg}, VerAll)
                ELSE Names({x_08}, {NoSeg, Seg1(<<>>), Seg1(x_bai00), Seg1(x_bai0), Seg1(x_bai), Seg1(x_bax)}, {NoSeg, Seg1(x_longcirc)}, {NoSeg},
                           {NoSeg, <<SWm>>, <<SWx>>, <<HWm>>, <<SWm, HWm>>, <<SWx, HWm>>})
 FamA2(th) == {World("A2", 8, 1, BaseSl, Ents(Files(x_vaillant, P, 0))) : P \in {Q \in UpTo2(NamesA2(th)) : Cardinality(Q) = 2}}
 
 (* A3: three and four candidates of a core grammar *)
 NamesA3(th) == IF th THEN Names({x_08}, {NoSeg, Seg1(x_bai0), Seg1(x_bai)}, {NoSeg, Seg1(x_longcirc)}, {NoSeg}, {NoSeg, <<SWm>>, <<HWm>>, <<SWm, HWm>>})
-                          \ {NameOf(x_08, <<SWm>>), NameOf(x_08, <<HWm>>), NameOf(x_08, <<x_bai0, x_longcirc, HWm>>), NameOf(x_08, <<x_bai0, HWm>>)}
                ELSE Names({x_08}, {NoSeg, Seg1(x_bai0), Seg1(x_bai)}, {NoSeg, Seg1(x_longcirc)}, {NoSeg}, {NoSeg, <<SWm>>, <<SWm, HWm>>}) \ {NameOf(x_08, <<SWm, HWm>>)}
 FamA3(th) == {World("A3", 8, 1, BaseSl, Ents(Files(x_vaillant, P, 0))) : P \in {Q \in UpTo4(NamesA3(th)) : Cardinality(Q) >= 3}}
 
@@ -228,17 +229,18 @@ NamesA10 == {NameOf(x_08, <<x_bai>>), NameOf(x_08, <<x_bai, x_hc>>), NameOf(x_08
 FamA10(th) == {World("A10", 8, 1, BaseSl, Ents(Files(x_vaillant, {n}, 2) \cup X)) :
                  n \in NamesA10, X \in {{}, {<<x_vaillant_2f_5ftemplates_2ecsv, 3>>, <<x_vaillant_2fgen_2ecsv, 0>>}}}
 
-SelWorlds(th) == FamA1(th) \cup FamA2(th) \cup FamA3(th) \cup FamA4(th) \cup FamA5(th) \cup FamA6(th) \cup FamA7(th) \cup FamA8(th)
-                 \cup FamA9(th) \cup FamA10(th)
+(* the worlds as a sequence, family after family (a world that belongs to two families is simply run twice): no big set   *)
+(* has to be normalised, and the judge compares the records with this list index by index                                 *)
+SelSeq(th) == SetToSeq(FamA1(th)) \o SetToSeq(FamA2(th)) \o SetToSeq(FamA3(th)) \o SetToSeq(FamA4(th)) \o SetToSeq(FamA5(th))
+              \o SetToSeq(FamA6(th)) \o SetToSeq(FamA7(th)) \o SetToSeq(FamA8(th)) \o SetToSeq(FamA9(th)) \o SetToSeq(FamA10(th))
 FamilySizes(th) == <<Cardinality(FamA1(th)), Cardinality(FamA2(th)), Cardinality(FamA3(th)), Cardinality(FamA4(th)), Cardinality(FamA5(th)),
                      Cardinality(FamA6(th)), Cardinality(FamA7(th)), Cardinality(FamA8(th)), Cardinality(FamA9(th)), Cardinality(FamA10(th))>>
-SelKey(w) == <<w.addr, w.has, w.sl, {w.ents[k] : k \in 1..Len(w.ents)}>>
 
 (* ---- names handed to the file-name reader alone ---- *)
 FnExtra == {x_08_2ecsv, x_8_2ebai_2ecsv, x_0g_2ebai_2ecsv, x_aa_2ebai_2ecsv, x_a9_2ebai_2ecsv, x_0A_2ebai_2ecsv, x_08_2ebailon_2ehc_2ecsv, x_08_2ebai_2ehc_2ex_2ecsv,
             x_08_2eSW0102_2ebai_2ecsv, x_08_2ebai_2eSW01a2_2ecsv, x_08_2ebai_2eSW0102_2eSW0103_2ecsv, x_08_2eBAI_2ecsv, x_08_2ebai_2ehc_2e3_2ex_2eSW0102_2ey_2eHW0304_2ez_2ecsv,
             x_08_2ebai_2etxt, x__5ftemplates_2ecsv, x_gen_2ecsv, x_08_2ebai_2e3_2ehc_2ecsv, x_fe_2ebai_2ecsv, x_08_2e_2ehc_2ecsv, x_08_2e_2e_2ecsv, x_08_2ebai_2ehc_2e3, x_08, x_08_2e,
-            x_08_2ebai_2e7_2ecsv, x_08_2ebai_2ec_2ecsv, x_08_2ebai_2e33_2ecsv, x_08_2ebai_2ehc_2eHW0304_2ex_2eSW0102_2ecsv}
+            x_08_2ebai_2e7_2ecsv, x_08_2ebai_2ec_2ecsv, x_08_2ebai_2e33_2ecsv, x_08_2ebai_2ehc_2e33_2ecsv, x_08_2ebai_2e33_2ex_2ecsv, x_08_2ebai_2e3_2ex_2ecsv, x_08_2ebai_2ehc_2eHW0304_2ex_2eSW0102_2ecsv}
 FnNames == NamesA1 \cup FnExtra
 
 (* ---- MASTER/SLAVE texts ---- *)
